@@ -444,7 +444,7 @@ func init() {
 				}
 			}
 		}})
-		us = append(us, coldUnit("nasConvert", "misc", "zones"))
+		us = append(us, coldUnits(tier, "nasConvert", "misc", "zones")...)
 		return us
 	}
 	core.Register(p)
